@@ -137,9 +137,16 @@ def queries(r, xs, u, cap):
         qs.update([b, max(0, b - 1), min(M, b + (1 << l) - 1), min(M, b + (1 << l))])
     for _ in range(4):
         qs.add(r.randrange(min(M, u + 3) + 1))
+    # the widest gap of the sequence: right after its left end, its middle, right before its right end
+    wide = set()
+    if len(xs) >= 2:
+        j = max(range(1, len(xs)), key=lambda t: xs[t] - xs[t - 1])
+        if xs[j] - xs[j - 1] > 2:
+            wide = {xs[j - 1] + 1, (xs[j] + xs[j - 1]) // 2, xs[j] - 1, xs[j - 1], xs[j]}
+    qs |= wide
     qs = sorted(q for q in qs if 0 <= q <= M)
     if len(qs) > 3 * cap + 12:
-        keep = {0, u, min(M, u + 1), M}
+        keep = {0, u, min(M, u + 1), M} | wide
         qs = sorted(set(r.sample(qs, 3 * cap)) | keep)
     return qs
 
@@ -560,6 +567,11 @@ def reload_episodes(seed, count):
     eps = []
     modes = ["full", "eps", "mmap", "eps8"]
     cases = [([], 0), ([], 9), ([4], 4), ([M], M), ([0, 0, 0], 0), ([1, 5, 10], 10)]
+    # dense clusters separated by hundreds of empty buckets (several all-zero words of upper bits between them)
+    for (a0, cnt, gap, cnt2) in ((0, 100, 99800, 100), (5, 64, 1 << 20, 3), (1000, 300, 700000, 300), (0, 129, 1 << 33, 65)):
+        xs = list(range(a0, a0 + cnt)) + list(range(a0 + cnt + gap, a0 + cnt + gap + cnt2))
+        cases.append((xs, xs[-1] + 1))
+        cases.append((xs, xs[-1] + 12345))
     k = 0
     while len(cases) < count:
         n, u = pick_nu(r, 600)
